@@ -20,15 +20,15 @@ ASSUMPTIONS = ["assign and execute are not in the Lean command model: for them u
 
 def run(ctx):
     thorough, seed = ctx["thorough"], ctx["seed"]
-    total = {"evaluations": 0, "disagreements": [], "violations": [], "streams": {}, "distribution": {}}
+    total = {"evaluations": 0, "disagreements": [], "violations": [], "streams": {}, "distribution": {}, "distinct_nontrivial": 0}
     for name, rr in (("c13", dbgsem.check_c13(seed, 2500 if thorough else 300)),
                      ("dbgmodel", dbgsem.check_model(seed + 1, 1500 if thorough else 150))):
         total["evaluations"] += rr["evaluations"]
+        total["distinct_nontrivial"] += rr.get("distinct", 0)
         total["disagreements"] += rr["disagreements"]
         total["violations"] += rr["violations"]
         total["streams"][name] = rr["evaluations"]
         total["distribution"][name] = rr.get("distribution", {})
-    total["distinct_nontrivial"] = total["evaluations"]
     total["rule"] = ("generated programs with data, calls, loops x histories over next/step/continue/assign/execute/goto/break/clear/"
                      "on/off/restart interleaved with undo, then undo back to the start")
     total["samples"] = [{"cmds": ["next 5", "R1 = 7", "undo", "undo", "restart"]}]
